@@ -227,3 +227,634 @@ func emailProvenance(c *load.Ctx, r *report.RuleResult) {
 }
 
 var _ = load.Module
+
+// --- C08: rule combinations and applicability as enforced -----------------------------------------
+
+func init() {
+	register(&Rule{ID: "T-banned", Min: 1, Run: runTBanned,
+		Doc: "format types exclude length / regex rules, any excludes const: allowedConstraintCheck, interpreted over an abstract node with the presence of every rule as an atom, rejects the node iff one of the format rules (email, uri, uuid, date, datetime) is present together with minLength, maxLength or regex, or any together with const — decided from the rules on the node itself, so that rule-sets inside or (whose node is of kind mixed) are covered as well"})
+	register(&Rule{ID: "T-compat", Min: 20, Run: runTCompat,
+		Doc: "rule applicability is enforced on every plain node: checkCompatibilityOfConstraints, interpreted for every constraint type with its IsJsonTypeCompatible verdict as an atom, rejects the node iff the verdict is negative and the node is neither a mixed node nor a type-shortcut node — whatever the example's kind and whatever other rules (nullable …) are present"})
+}
+
+func runTBanned(c *load.Ctx, r *report.RuleResult) {
+	e := newAbsNodeEnv(c)
+	if e.problem != "" {
+		r.Unk("anchor|schema.Node", "", e.problem)
+		return
+	}
+	e.cfg.MaxPaths = 60000
+	e.cfg.TotalFuel = 200000000
+	outs, pos, problem := e.callWithNode(pkgLoader, "schemaCompiler.allowedConstraintCheck", nil, nil)
+	if problem != "" {
+		r.Unk("anchor|schemaCompiler.allowedConstraintCheck", "", problem)
+		return
+	}
+	formats := []string{"Email", "Uri", "Uuid", "Date", "DateTime"}
+	banned := []string{"MinLength", "MaxLength", "Regex"}
+	type pair struct{ a, b string }
+	var pairs []pair
+	for _, f := range formats {
+		for _, b := range banned {
+			pairs = append(pairs, pair{f + "ConstraintType", b + "ConstraintType"})
+		}
+	}
+	pairs = append(pairs, pair{"AnyConstraintType", "ConstConstraintType"})
+	for _, p := range pairs {
+		if e.byName[p.a] == nil || e.byName[p.b] == nil {
+			r.Unk("anchor|constraint types", pos, "constraint type constant "+p.a+" / "+p.b+" not found")
+			return
+		}
+	}
+	var problems []string
+	for _, o := range outs {
+		v, code := verdictOf(o)
+		if v == "undecided" || v == "crash" {
+			problems = append(problems, "not interpretable: "+code+" {"+o.Valuation()+"}")
+			continue
+		}
+		val := o.ChoiceMap()
+		get := func(n string) (bool, bool) {
+			s, ok := val["has("+n+")"]
+			return s == "true", ok
+		}
+		switch v {
+		case "reject":
+			ok := false
+			for _, p := range pairs {
+				a, ca := get(p.a)
+				b, cb := get(p.b)
+				if ca && cb && a && b {
+					ok = true
+				}
+			}
+			if !ok {
+				problems = append(problems, "rejects a node on which no excluded combination was found present: {"+o.Valuation()+"}")
+			}
+		case "accept":
+			for _, p := range pairs {
+				a, ca := get(p.a)
+				b, cb := get(p.b)
+				if !(ca && !a) && !(cb && !b) {
+					problems = append(problems, fmt.Sprintf("accepts a node without having excluded %s together with %s: {%s}", strings.TrimSuffix(p.a, "ConstraintType"), strings.TrimSuffix(p.b, "ConstraintType"), o.Valuation()))
+					break
+				}
+			}
+		}
+	}
+	sort.Strings(problems)
+	if len(problems) > 0 {
+		if len(problems) > 4 {
+			problems = append(problems[:4], fmt.Sprintf("… and %d more", len(problems)-4))
+		}
+		r.Bad("banned|format and any combinations", pos, strings.Join(problems, "; "))
+	} else {
+		r.OK("banned|format and any combinations", pos, fmt.Sprintf("%d paths: rejected iff a format rule meets minLength / maxLength / regex, or any meets const", len(outs)))
+	}
+}
+
+func runTCompat(c *load.Ctx, r *report.RuleResult) {
+	e := newAbsNodeEnv(c)
+	fn := c.Func(pkgChecker, "checkSchema.checkCompatibilityOfConstraints")
+	consT := namedType(c, pkgSchema, "Constraints")
+	setFn := c.Func(pkgSchema, "Constraints.Set")
+	ci0 := namedType(c, pkgConstraint, "Constraint")
+	if e.problem != "" || fn == nil || consT == nil || setFn == nil || ci0 == nil {
+		r.Unk("anchor|checker.checkCompatibilityOfConstraints", "", "function or Constraints map not found "+e.problem)
+		return
+	}
+	pos := c.Pos(fn.Pos())
+	for _, op := range []string{"Lock", "Unlock", "RLock", "RUnlock"} {
+		e.cfg.Intrinsics["(*sync.RWMutex)."+op] = func(in *pe.Interp, args []pe.Value) (pe.Value, bool) { return nil, true }
+	}
+	// the verdict of the rule's own applicability test is an atom (T1 decides what it is)
+	for _, ci := range e.byVal {
+		if ci.named == nil {
+			continue
+		}
+		if f := c.Func(pkgConstraint, ci.named.Obj().Name()+".IsJsonTypeCompatible"); f != nil {
+			e.cfg.Intrinsics[f.String()] = func(in *pe.Interp, args []pe.Value) (pe.Value, bool) {
+				in.Effect("compat-asked-for " + strings.Trim(pe.Show(args[len(args)-1]), "‹›"))
+				return in.Choose("compatible", []string{"false", "true"}) == 1, true
+			}
+		}
+	}
+	prefix := "invoke:" + types.TypeString(e.nodeT, nil) + "."
+	e.cfg.Intrinsics[prefix+"RealType"] = func(in *pe.Interp, args []pe.Value) (pe.Value, bool) {
+		return pe.NewSym("node.realType", types.Typ[types.String]), true
+	}
+	var cis []*constraintInfo
+	for _, ci := range e.byVal {
+		if ci.named != nil {
+			cis = append(cis, ci)
+		}
+	}
+	sort.Slice(cis, func(i, j int) bool { return cis[i].name < cis[j].name })
+	for _, ci := range cis {
+		ci := ci
+		e.cfg.Intrinsics[prefix+"ConstraintMap"] = func(in *pe.Interp, args []pe.Value) (pe.Value, bool) {
+			m := in.NewStruct(consT, "constraints")
+			obj := &pe.Iface{T: types.NewPointer(ci.named), V: symStruct(in, ci.named, ci.named.Obj().Name(), nil)}
+			in.Call(setFn, []pe.Value{m, ci.val, obj})
+			in.SetSymMem("node.has("+ci.name+")", true)
+			return m, true
+		}
+		outs := pe.ExploreFn(e.cfg, func(in *pe.Interp) pe.Value {
+			args := []pe.Value{}
+			for i, p := range fn.Params {
+				if i == 0 && fn.Signature.Recv() != nil {
+					args = append(args, pe.NewSym("recv", p.Type()))
+					continue
+				}
+				args = append(args, pe.NewSym("node", e.nodeT))
+			}
+			return in.Call(fn, args)
+		})
+		key := "compat|" + strings.TrimSuffix(ci.name, "ConstraintType")
+		var problems []string
+		for _, o := range outs {
+			v, code := verdictOf(o)
+			if v == "undecided" || v == "crash" {
+				problems = append(problems, "not interpretable: "+code+" {"+o.Valuation()+"}")
+				continue
+			}
+			val := o.ChoiceMap()
+			mixed := false
+			for k, x := range val {
+				if strings.HasPrefix(k, "is(") && strings.Contains(k, "Mixed") && x == "true" {
+					mixed = true
+				}
+			}
+			comp, asked := val["compatible"]
+			want := "accept"
+			if !mixed && (!asked || comp == "false") {
+				want = "reject"
+			}
+			if !asked && !mixed && v == "accept" {
+				problems = append(problems, "a plain node is accepted without asking whether the rule applies to its kind: {"+o.Valuation()+"}")
+				continue
+			}
+			if asked && v != want {
+				problems = append(problems, fmt.Sprintf("%ss where the property requires %s: {%s}", v, want, o.Valuation()))
+			}
+			for _, ef := range o.Effects {
+				if strings.HasPrefix(ef, "compat-asked-for ") && !strings.Contains(ef, "node.type") {
+					problems = append(problems, "the applicability test is given "+strings.TrimPrefix(ef, "compat-asked-for ")+", not the kind of the node")
+				}
+			}
+		}
+		sort.Strings(problems)
+		if len(problems) > 0 {
+			if len(problems) > 3 {
+				problems = append(problems[:3], fmt.Sprintf("… and %d more", len(problems)-3))
+			}
+			r.Bad(key, pos, strings.Join(uniq(problems), "; "))
+		} else {
+			r.OK(key, pos, fmt.Sprintf("%d paths: rejected iff not applicable and the node is a plain one", len(outs)))
+		}
+	}
+}
+
+// --- C04: which checkers an example is held against ------------------------------------------------
+
+func init() {
+	register(&Rule{ID: "T-chklist", Min: 2, Run: runTChkList,
+		Doc: "an example with declared types is held against those types and nothing else: the checker's candidate list (nodeCheckerListConstructor.buildList) consists of the checkers of the named types when the node carries a types list — whatever other rules (nullable …) are present — and of the node's own checker otherwise; a candidate built from the node itself next to its types would accept every example, because the node has no rules of its own to violate"})
+	register(&Rule{ID: "T-rawkey", Min: 2, Run: runTRawKey,
+		Doc: "document keys meet schema keys in decoded form: ObjectNode.ChildByRawKey looks a non-shortcut key up by its JSON-decoded text (Bytes.Unquote, which resolves escape sequences), as the keys of the schema are stored, and a shortcut key by its own text"})
+}
+
+func runTChkList(c *load.Ctx, r *report.RuleResult) {
+	e := newAbsNodeEnv(c)
+	build := c.Func(pkgChecker, "nodeCheckerListConstructor.buildList")
+	appendTypes := c.Func(pkgChecker, "nodeCheckerListConstructor.appendTypeValidators")
+	appendNode := c.Func(pkgChecker, "nodeCheckerListConstructor.appendNodeValidators")
+	lcT := namedType(c, pkgChecker, "nodeCheckerListConstructor")
+	if e.problem != "" || build == nil || appendTypes == nil || appendNode == nil || lcT == nil {
+		r.Unk("anchor|checker.nodeCheckerListConstructor.buildList", "", "not found "+e.problem)
+		return
+	}
+	pos := c.Pos(build.Pos())
+	e.cfg.Intrinsics[appendTypes.String()] = func(in *pe.Interp, args []pe.Value) (pe.Value, bool) {
+		in.Effect("checkers-of-types")
+		return nil, true
+	}
+	e.cfg.Intrinsics[appendNode.String()] = func(in *pe.Interp, args []pe.Value) (pe.Value, bool) {
+		in.Effect("checker-of " + strings.Trim(pe.Show(args[1]), "‹›"))
+		return nil, true
+	}
+	// any other constructor of a checker called directly
+	for _, fn := range c.ModuleFunctions() {
+		if load.FuncPkgRel(fn) == pkgChecker && strings.HasPrefix(fn.Name(), "new") && strings.Contains(fn.Name(), "Checker") {
+			name := fn.Name()
+			f := fn
+			e.cfg.Intrinsics[fn.String()] = func(in *pe.Interp, args []pe.Value) (pe.Value, bool) {
+				in.Effect("direct " + name)
+				res := f.Signature.Results()
+				if res.Len() == 2 {
+					return &pe.Tuple{E: []pe.Value{pe.NewSym(name+"()", res.At(0).Type()), pe.NilV{}}}, true
+				}
+				return pe.NewSym(name+"()", res.At(0).Type()), true
+			}
+		}
+	}
+	outs := pe.ExploreFn(e.cfg, func(in *pe.Interp) pe.Value {
+		recv := symStruct(in, lcT, "l", map[string]pe.Value{"list": pe.NilV{}, "addedTypeNames": pe.NilV{}})
+		return in.Call(build, []pe.Value{recv, pe.NewSym("node", e.nodeT)})
+	})
+	for _, o := range outs {
+		val := o.ChoiceMap()
+		hasTypes := val["has(TypesListConstraintType)"] == "true"
+		key := fmt.Sprintf("chklist|types-list=%v", hasTypes)
+		if len(val) > 1 {
+			key += "|" + o.Valuation()
+		}
+		if o.Undecided != "" || o.Panicked {
+			r.Unk(key, pos, "not interpretable: "+o.Exit())
+			continue
+		}
+		want := "checker-of node"
+		if hasTypes {
+			want = "checkers-of-types"
+		}
+		got := strings.Join(o.Effects, " + ")
+		if got == want {
+			r.OK(key, pos, got)
+		} else {
+			r.Bad(key, pos, fmt.Sprintf("the candidates for the example are [%s], expected [%s]: a node with declared types must be checked against those types only", got, want))
+		}
+	}
+}
+
+func runTRawKey(c *load.Ctx, r *report.RuleResult) {
+	e := newTableEnv(c)
+	fn := c.Func(pkgSchema, "ObjectNode.ChildByRawKey")
+	child := c.Func(pkgSchema, "ObjectNode.Child")
+	isUT := c.Func(pkgBytes, "Bytes.IsUserTypeName")
+	onT := namedType(c, pkgSchema, "ObjectNode")
+	if fn == nil || child == nil || isUT == nil || onT == nil {
+		r.Unk("anchor|schema.ObjectNode.ChildByRawKey", "", "not found")
+		return
+	}
+	pos := c.Pos(fn.Pos())
+	clean := func(v pe.Value) string { return strings.Trim(pe.Show(v), "‹›\"") }
+	if f := c.Func(pkgBytes, "Bytes.String"); f != nil {
+		e.cfg.Intrinsics[f.String()] = func(in *pe.Interp, args []pe.Value) (pe.Value, bool) {
+			return pe.NewSym(clean(args[0]), types.Typ[types.String]), true
+		}
+	}
+	e.cfg.Intrinsics[isUT.String()] = func(in *pe.Interp, args []pe.Value) (pe.Value, bool) {
+		return in.Choose("shortcut("+clean(args[0])+")", []string{"false", "true"}) == 1, true
+	}
+	e.cfg.Intrinsics[child.String()] = func(in *pe.Interp, args []pe.Value) (pe.Value, bool) {
+		in.Effect(fmt.Sprintf("Child(%s,%s)", clean(args[1]), pe.Show(args[2])))
+		res := child.Signature.Results()
+		return &pe.Tuple{E: []pe.Value{pe.NewSym("child", res.At(0).Type()), pe.NewSym("found", res.At(1).Type())}}, true
+	}
+	outs := pe.ExploreFn(e.cfg, func(in *pe.Interp) pe.Value {
+		recv := in.Zero(onT)
+		return in.Call(fn, []pe.Value{recv, pe.NewSym("rawKey", fn.Params[1].Type())})
+	})
+	for _, o := range outs {
+		sc := o.ChoiceMap()["shortcut(rawKey)"]
+		key := "rawkey|shortcut=" + sc
+		if o.Undecided != "" || o.Panicked {
+			r.Unk(key+"|"+o.Valuation(), pos, "not interpretable: "+o.Exit())
+			continue
+		}
+		want := "Child(unquote(rawKey),false)"
+		if sc == "true" {
+			want = "Child(rawKey,true)"
+		}
+		got := strings.Join(o.Effects, " ")
+		if sc == "" {
+			r.Bad(key+"|"+o.Valuation(), pos, "the key is looked up without asking whether it is a type shortcut: "+got)
+			continue
+		}
+		if got == want {
+			r.OK(key, pos, got)
+		} else {
+			r.Bad(key, pos, fmt.Sprintf("looks the key up as %s, expected %s: a key written with escape sequences in the document would not find the property the schema stores in decoded form", got, want))
+		}
+	}
+}
+
+// --- \u escapes ----------------------------------------------------------------------------------------
+
+func init() {
+	register(&Rule{ID: "T-hex", Min: 4, Run: runTHex,
+		Doc: "\\uXXXX escapes are decoded digit by digit as hexadecimal, in either letter case: bytes.getu4, interpreted with each of the four digit positions in turn ranging over all 256 byte values (the others '0'), returns 16^(3-k) times the hexadecimal value of the byte for 0-9, a-f and A-F, and -1 for every other byte — so \"\\u00e9\", \"\\u00E9\" and the literal character decode to the same string"})
+}
+
+func runTHex(c *load.Ctx, r *report.RuleResult) {
+	fn := c.Func(pkgBytes, "getu4")
+	if fn == nil {
+		r.Unk("anchor|bytes.getu4", "", "not found")
+		return
+	}
+	pos := c.Pos(fn.Pos())
+	cfg := newPEConfig(c)
+	byteT := types.Typ[types.Uint8]
+	hexval := func(b int) int64 {
+		switch {
+		case b >= '0' && b <= '9':
+			return int64(b - '0')
+		case b >= 'a' && b <= 'f':
+			return int64(b-'a') + 10
+		case b >= 'A' && b <= 'F':
+			return int64(b-'A') + 10
+		}
+		return -1
+	}
+	for k := 0; k < 4; k++ {
+		k := k
+		outs := pe.ExploreFn(cfg, func(in *pe.Interp) pe.Value {
+			elems := []pe.Value{int64('\\'), int64('u'), int64('0'), int64('0'), int64('0'), int64('0')}
+			elems[2+k] = pe.NewSym("digit", byteT)
+			return in.Call(fn, []pe.Value{in.MakeSliceOf(elems, 6)})
+		})
+		key := fmt.Sprintf("hex|digit %d", k+1)
+		seen := map[int]bool{}
+		var problems []string
+		for _, o := range outs {
+			if o.Undecided != "" || o.Panicked {
+				problems = append(problems, "not interpretable: "+o.Exit()+" {"+o.Valuation()+"}")
+				continue
+			}
+			b := -1
+			for _, ch := range o.Choices {
+				if strings.Contains(ch.Name, "digit") {
+					var v int
+					if _, err := fmt.Sscanf(ch.Label, "%d", &v); err == nil {
+						b = v
+					} else {
+						b = ch.Val
+					}
+				}
+			}
+			if b < 0 {
+				problems = append(problems, "a path does not depend on the digit: {"+o.Valuation()+"} => "+o.Exit())
+				continue
+			}
+			seen[b] = true
+			want := hexval(b)
+			if want >= 0 {
+				for i := 0; i < 3-k; i++ {
+					want *= 16
+				}
+			}
+			got, ok := o.Ret.(int64)
+			if !ok || got != want {
+				problems = append(problems, fmt.Sprintf("byte %q as digit %d decodes to %s, expected %d", string([]byte{byte(b)}), k+1, pe.Show(o.Ret), want))
+			}
+		}
+		if len(seen) != 256 && len(problems) == 0 {
+			problems = append(problems, fmt.Sprintf("only %d of 256 byte values explored", len(seen)))
+		}
+		if len(problems) > 0 {
+			sort.Strings(problems)
+			if len(problems) > 4 {
+				problems = append(problems[:4], fmt.Sprintf("… and %d more", len(problems)-4))
+			}
+			r.Bad(key, pos, strings.Join(problems, "; "))
+		} else {
+			r.OK(key, pos, "all 256 byte values: 0-9, a-f, A-F decode to their hexadecimal value, everything else is rejected")
+		}
+	}
+}
+
+func init() {
+	register(&Rule{ID: "T-escape", Min: 1, Run: runTEscape,
+		Doc: "two-character escapes decode as RFC 8259 says: bytes.unquoteBytes, interpreted on the token \"\\X\" with X ranging over all 256 byte values, yields the one-byte string \", \\, / for those characters, backspace, form feed, line feed, carriage return and tab for b, f, n, r, t, and reports the token as undecodable for every other X (u needs four digits)"})
+}
+
+func runTEscape(c *load.Ctx, r *report.RuleResult) {
+	fn := c.Func(pkgBytes, "unquoteBytes")
+	if fn == nil {
+		r.Unk("anchor|bytes.unquoteBytes", "", "not found")
+		return
+	}
+	pos := c.Pos(fn.Pos())
+	cfg := newPEConfig(c)
+	want := map[int]int{'"': '"', '\\': '\\', '/': '/', 'b': '\b', 'f': '\f', 'n': '\n', 'r': '\r', 't': '\t'}
+	lenient := map[int]bool{'\'': true} // encoding/json's unquote also admits \' ; the scanners reject it before
+	outs := pe.ExploreFn(cfg, func(in *pe.Interp) pe.Value {
+		elems := []pe.Value{int64('"'), int64('\\'), pe.NewSym("x", types.Typ[types.Uint8]), int64('"')}
+		return in.Call(fn, []pe.Value{in.MakeSliceOf(elems, 4)})
+	})
+	seen := map[int]bool{}
+	var problems []string
+	for _, o := range outs {
+		if o.Undecided != "" || o.Panicked {
+			problems = append(problems, "not interpretable: "+o.Exit()+" {"+o.Valuation()+"}")
+			continue
+		}
+		b := -1
+		for _, ch := range o.Choices {
+			if strings.Contains(ch.Name, "x") {
+				var v int
+				if _, err := fmt.Sscanf(ch.Label, "%d", &v); err == nil {
+					b = v
+				} else {
+					b = ch.Val
+				}
+			}
+		}
+		if b < 0 {
+			problems = append(problems, "a path does not depend on the escaped byte: "+o.Exit())
+			continue
+		}
+		seen[b] = true
+		tp, ok := o.Ret.(*pe.Tuple)
+		if !ok || len(tp.E) != 2 {
+			problems = append(problems, "unexpected result "+pe.Show(o.Ret))
+			continue
+		}
+		okv, _ := tp.E[1].(bool)
+		w, decodable := want[b]
+		if lenient[b] {
+			continue
+		}
+		if okv != decodable {
+			problems = append(problems, fmt.Sprintf("\\%s is reported decodable=%v, expected %v", string([]byte{byte(b)}), okv, decodable))
+			continue
+		}
+		if decodable {
+			elems, ok := pe.SliceElems(tp.E[0])
+			if !ok || len(elems) != 1 {
+				problems = append(problems, fmt.Sprintf("\\%s decodes to %s, expected one byte", string([]byte{byte(b)}), pe.Show(tp.E[0])))
+				continue
+			}
+			if sy, isSym := elems[0].(*pe.Sym); isSym && sy.Name() == "x" {
+				elems[0] = int64(b) // the escaped byte itself was copied
+			}
+			if g, ok := elems[0].(int64); !ok || int(g) != w {
+				problems = append(problems, fmt.Sprintf("\\%s decodes to byte %s, expected %d", string([]byte{byte(b)}), pe.Show(elems[0]), w))
+			}
+		}
+	}
+	if len(seen) != 256 && len(problems) == 0 {
+		problems = append(problems, fmt.Sprintf("only %d of 256 byte values explored", len(seen)))
+	}
+	if len(problems) > 0 {
+		sort.Strings(problems)
+		if len(problems) > 4 {
+			problems = append(problems[:4], fmt.Sprintf("… and %d more", len(problems)-4))
+		}
+		r.Bad("escape|two-character escapes", pos, strings.Join(problems, "; "))
+	} else {
+		r.OK("escape|two-character escapes", pos, "all 256 byte values after the backslash")
+	}
+}
+
+// --- C16: reference nodes mirror their source text ------------------------------------------------------
+
+func init() {
+	register(&Rule{ID: "T-astref", Min: 1, Run: runTAstRef,
+		Doc: "type-shortcut nodes carry their source text: the Value of the AST node built by MixedValueNode.ASTNode is the text stored when the shortcut was read (the node's value field), on every path — not a re-rendering of the parsed names, which would normalise spacing and be overwritten by a type rule"})
+}
+
+func runTAstRef(c *load.Ctx, r *report.RuleResult) {
+	fn := c.Func(pkgSchema, "MixedValueNode.ASTNode")
+	from := c.Func(pkgSchema, "astNodeFromNode")
+	mvT := namedType(c, pkgSchema, "MixedValueNode")
+	if fn == nil || from == nil || mvT == nil {
+		r.Unk("anchor|schema.MixedValueNode.ASTNode", "", "not found")
+		return
+	}
+	pos := c.Pos(fn.Pos())
+	cfg := newPEConfig(c)
+	cfg.Intrinsics[from.String()] = func(in *pe.Interp, args []pe.Value) (pe.Value, bool) {
+		return in.Zero(from.Signature.Results().At(0).Type()), true
+	}
+	outs := pe.ExploreFn(cfg, func(in *pe.Interp) pe.Value {
+		recv := symStruct(in, mvT, "n", nil)
+		return in.Call(fn, []pe.Value{recv})
+	})
+	var problems []string
+	n := 0
+	for _, o := range outs {
+		if o.Undecided != "" || o.Panicked {
+			problems = append(problems, "not interpretable: "+o.Exit())
+			continue
+		}
+		tp, ok := o.Ret.(*pe.Tuple)
+		if !ok || len(tp.E) == 0 {
+			problems = append(problems, "unexpected result "+pe.Show(o.Ret))
+			continue
+		}
+		sv, ok := tp.E[0].(*pe.StructV)
+		if !ok {
+			problems = append(problems, "the AST node is not a struct value: "+pe.Show(tp.E[0]))
+			continue
+		}
+		st := sv.T.Underlying().(*types.Struct)
+		for i := 0; i < st.NumFields(); i++ {
+			if st.Field(i).Name() == "Value" {
+				n++
+				if got := strings.Trim(pe.Show(sv.F[i]), "‹›"); got != "n.value" {
+					problems = append(problems, fmt.Sprintf("on path {%s} the Value is %s, not the stored source text", o.Valuation(), got))
+				}
+			}
+		}
+	}
+	if n == 0 {
+		problems = append(problems, "no path sets the Value of the AST node")
+	}
+	if len(problems) > 0 {
+		r.Bad("astref|MixedValueNode.Value", pos, strings.Join(uniq(problems), "; "))
+	} else {
+		r.OK("astref|MixedValueNode.Value", pos, fmt.Sprintf("%d path(s): Value is the node's stored text", n))
+	}
+}
+
+// --- C18: the example of a regex type is the generator's sample, untouched -----------------------------
+
+func init() {
+	register(&Rule{ID: "RX-1", Min: 1, Run: runRX1,
+		Doc: "the example of a regex type is the sample the generator produced for the pattern, byte for byte: in notations/regex every value that reaches the first result of generateExample is nil or the direct conversion of (*reggen.Generator).Generate's result — trimming, re-quoting or otherwise editing the sample can make it stop matching the pattern it was generated from"})
+}
+
+func runRX1(c *load.Ctx, r *report.RuleResult) {
+	fn := c.Func("notations/regex", "Schema.generateExample")
+	if fn == nil {
+		r.Unk("anchor|regex.Schema.generateExample", "", "not found")
+		return
+	}
+	pos := c.Pos(fn.Pos())
+	isGenerate := func(v ssa.Value) bool {
+		call, ok := v.(*ssa.Call)
+		if !ok {
+			return false
+		}
+		sc := call.Call.StaticCallee()
+		return sc != nil && sc.Name() == "Generate" && sc.Pkg != nil && strings.HasSuffix(sc.Pkg.Pkg.Path(), "/reggen")
+	}
+	var verdict func(v ssa.Value, depth int) string
+	verdict = func(v ssa.Value, depth int) string {
+		if depth > 8 {
+			return "too deep"
+		}
+		switch x := v.(type) {
+		case *ssa.Const:
+			if x.IsNil() {
+				return ""
+			}
+		case *ssa.Convert:
+			if isGenerate(x.X) {
+				return ""
+			}
+			return "a conversion of " + describeValue(x.X)
+		case *ssa.Phi:
+			for _, e := range x.Edges {
+				if w := verdict(e, depth+1); w != "" {
+					return w
+				}
+			}
+			return ""
+		case *ssa.UnOp:
+			if al, ok := x.X.(*ssa.Alloc); ok {
+				for _, ref := range *al.Referrers() {
+					if st, ok := ref.(*ssa.Store); ok && st.Addr == al {
+						if w := verdict(st.Val, depth+1); w != "" {
+							return w
+						}
+					}
+				}
+				return ""
+			}
+		case *ssa.Call:
+			if sc := x.Call.StaticCallee(); sc != nil {
+				return "the result of " + sc.Name()
+			}
+		}
+		return describeValue(v)
+	}
+	n := 0
+	var problems []string
+	sawGenerate := false
+	for _, b := range fn.Blocks {
+		for _, ins := range b.Instrs {
+			if call, ok := ins.(*ssa.Call); ok && isGenerate(call) {
+				sawGenerate = true
+			}
+			ret, ok := ins.(*ssa.Return)
+			if !ok || len(ret.Results) == 0 {
+				continue
+			}
+			n++
+			if w := verdict(ret.Results[0], 0); w != "" {
+				problems = append(problems, "the example returned at "+c.Pos(ret.Pos())+" is "+w+", not the generator's sample as it is")
+			}
+		}
+	}
+	// stores into a named result from closures (the recover handler) are nil by construction of verdict
+	if !sawGenerate {
+		problems = append(problems, "generateExample does not call the generator")
+	}
+	if len(problems) > 0 {
+		r.Bad("regexexample|generateExample", pos, strings.Join(uniq(problems), "; "))
+	} else {
+		r.OK("regexexample|generateExample", pos, fmt.Sprintf("%d return(s): nil or the unchanged sample", n))
+	}
+}
